@@ -281,6 +281,8 @@ func (w *worker) runPath(item workItem) {
 	in.permCount = 0
 	in.permBySize = nil
 	in.mon = nil
+	in.vfs = nil
+	in.vfsOrder = nil
 	in.mons = [2]*monitor{}
 	if in.dirty {
 		// a global was written on the previous path: re-run initialisers
